@@ -189,6 +189,11 @@ class WMSSource(MapLayer):
         if self.coverage != other.coverage:
             return False
 
+        if other.image_opts.transparent is False:
+            # an opaque source replaces everything below,
+            # it can not be rendered on top of it by the server
+            return False
+
         if (query.dimensions_for_params(self.fwd_req_params) !=
                 query.dimensions_for_params(other.fwd_req_params)):
             return False
